@@ -62,6 +62,15 @@ pub fn secret(len: usize, fill: usize) -> String {
                 _ => format!(" {}\t", "b".repeat(len - 2)),
             }
         }
+        7 => {
+            // begins with the literal the library itself prepends ("AWS4"), as a stored kSecret would
+            let src = b"AWS4AWS4wJalrXUtnFEMI/K7MDENG+bPxRfiCYEXAMPLEKEY0123456789ABCDEFGHIJKLMNOPQRSTUVWXYZabcdefghijklmnopqrstuvwxyz";
+            String::from_utf8(src.iter().cycle().take(len).cloned().collect()).unwrap()
+        }
+        8 => {
+            let src = b"aws4_request/AWS4";
+            String::from_utf8(src.iter().cycle().take(len).cloned().collect()).unwrap()
+        }
         _ => {
             // trailing no-break space (multi-byte whitespace)
             if len < 2 {
@@ -72,7 +81,7 @@ pub fn secret(len: usize, fill: usize) -> String {
         }
     }
 }
-pub const NFILLS: u64 = 7;
+pub const NFILLS: u64 = 9;
 
 fn cap_result<const M: usize>(s: &str) -> Result<Result<(), ()>, String> {
     catch_unwind(AssertUnwindSafe(|| match KSecretKey::<M>::from_str(s) {
@@ -304,7 +313,7 @@ pub fn run(ctx: &Ctx) -> Report {
     Report {
         stats: st,
         rule: format!(
-            "(1) capacities {{0,1,3,4,5,44,45,64,128}} x every secret length 0..={} and the lengths 65480..65600 and 1048560..1048620 x 7 fills (ASCII, mixed, multi-byte UTF-8, trailing NUL, trailing newline, leading/trailing blank and tab, trailing no-break space): accepted iff capacity >= 4 and length <= capacity-4, never a panic; (2) every accepted length 0..=40 x 7 fills x {} special dates (years 1/999/1000/9999, every 29 Feb 1896-2104) x 36 (region, service) pairs over {{empty, us-east-1, non-ASCII, 1000 bytes, with '/', with NUL}}: read-back of the secret, the four chain keys and all six shortcut derivations compared with the reference HMAC chain; (3) every calendar date {}-01-01..{}-12-31; (4) every sequence of 1..{} derivations on one thread over 12 secrets that are prefixes / NUL-extensions / case variants of one another x 2 dates, each judged alone. states = distinct reference signing keys; non-trivial = distinct inputs",
+            "(1) capacities {{0,1,3,4,5,44,45,64,128}} x every secret length 0..={} and the lengths 65480..65600 and 1048560..1048620 x 9 fills (ASCII, mixed, multi-byte UTF-8, trailing NUL, trailing newline, leading/trailing blank and tab, trailing no-break space, beginning with the literals 'AWS4' / 'aws4_request'): accepted iff capacity >= 4 and length <= capacity-4, never a panic; (2) every accepted length 0..=40 x 9 fills x {} special dates (years 1/999/1000/9999, every 29 Feb 1896-2104) x 36 (region, service) pairs over {{empty, us-east-1, non-ASCII, 1000 bytes, with '/', with NUL}}: read-back of the secret, the four chain keys and all six shortcut derivations compared with the reference HMAC chain; (3) every calendar date {}-01-01..{}-12-31; (4) every sequence of 1..{} derivations on one thread over 12 secrets that are prefixes / NUL-extensions / case variants of one another x 2 dates, each judged alone. states = distinct reference signing keys; non-trivial = distinct inputs",
             max_len, nd, y0, y1, depth
         ),
         bounds: json!({"max_secret_len": max_len, "dates_from_year": y0, "dates_to_year": y1}),
